@@ -392,21 +392,36 @@ def r_work_amount(ctx):
                           f"on [{cfgs}] {len(hits)} assertion(s) mention work_amount", "processscheduler/solver.py")
             continue
         g = conj_groups(hits)
-        (sig, bodies), = g.items()
-        loops, guards = sig
-        ok_loop = len(loops) == 1 and loops[0][3] == norm(Tk[3])
-        body = bodies[0]
-        # python-level guards allowed: work_amount > 0 and "the task has resources"
         from sa.decide import canon
-        allowed = {repr(canon(gt(A(t, "work_amount"), K(0))))}
-        extra = [x for x in guards if repr(canon(x)) not in allowed and "_required_resources" not in show(x)]
-        # optional tasks: under the scheduled guard
         opt = A(t, "optional")
         want_opt = Implies(A(t, "_scheduled"), rel)
-        if body[0] == "phi":
-            ok_body = norm(body[1]) == norm(opt) and decide_equiv(ctx, body[2], want_opt)[0] and decide_equiv(ctx, body[3], rel)[0]
-        else:
-            ok_body = decide_equiv(ctx, body, want_opt)[0]
+        allowed = {repr(canon(gt(A(t, "work_amount"), K(0))))}
+        ok_loop, ok_body, extra = True, True, []
+        seen_opt = set()
+        sig = None
+        body = None
+        for sig, bodies in g.items():
+            loops, guards = sig
+            ok_loop = ok_loop and len(loops) == 1 and loops[0][3] == norm(Tk[3])
+            body = bodies[0]
+            # python-level guards allowed: work_amount > 0, "the task has resources", and the optional flag of the task
+            is_opt = [x for x in guards if repr(canon(x)) == repr(canon(opt))]
+            is_mand = [x for x in guards if repr(canon(x)) == repr(canon(app("not", opt)))]
+            extra += [x for x in guards if repr(canon(x)) not in allowed and "_required_resources" not in show(x)
+                      and x not in is_opt and x not in is_mand]
+            if body[0] == "phi":
+                seen_opt |= {True, False}
+                ok_body = ok_body and norm(body[1]) == norm(opt) and decide_equiv(ctx, body[2], want_opt)[0] and decide_equiv(ctx, body[3], rel)[0]
+            elif is_mand:
+                seen_opt.add(False)
+                ok_body = ok_body and decide_equiv(ctx, body, rel)[0]
+            else:
+                # an optional task - or one whose optional flag is not looked at: only the guarded form is safe
+                seen_opt.add(True)
+                if not is_opt:
+                    seen_opt.add(False)
+                ok_body = ok_body and decide_equiv(ctx, body, want_opt)[0]
+        ok_body = ok_body and seen_opt == {True, False}
         if ok_loop and ok_body and not extra:
             ctx.ok("R-WORK-AMOUNT", f"{where} [{cfgs}]", sample={"emitted": show(body)[:400]})
         else:
